@@ -55,6 +55,11 @@ def _kw_chunk(cases):
                         ok = "exception " + repr(e)
                     if ok:
                         bad.append(dict(dialect=c["d"], line=line, spec="not recognised", impl=f"{m} -> {ok}", matcher=state))
+    # matching lines must not write to the dialect table the matchers share
+    from gherkin.dialect import DIALECTS
+    from common import master_dialects
+    if any(DIALECTS[d] != v for d, v in master_dialects().items()):
+        bad.append(dict(dialect="*", line="", spec="the dialect table is what it was", impl="gherkin.dialect.DIALECTS changed while lines were matched", matcher="any"))
     return bad
 
 
